@@ -82,34 +82,46 @@ impl<K, V> ValueEntry<K, V> {
         self.ao() == o.ao() && self.wo() == o.wo() && self.w() == o.w() && self.ta() == o.ta() && self.tm() == o.tm()
     }
 
+//@@ SIG file=src/unsync.rs owner=ValueEntry name=new
     #[verifier::external_body]
     pub fn new(value: V, policy_weight: u32) -> (r: Self)
         ensures r.value == value, r.w() == policy_weight, r.ao().is_none(), r.wo().is_none()
     { unimplemented!() }
+//@@ END
+//@@ SIG file=src/unsync.rs owner=ValueEntry name=policy_weight
     #[verifier::external_body]
     pub fn policy_weight(&self) -> (r: u32) ensures r == self.w() { unimplemented!() }
+//@@ END
+//@@ SIG file=src/unsync.rs owner=ValueEntry name=set_policy_weight
     #[verifier::external_body]
     pub fn set_policy_weight(&mut self, policy_weight: u32)
         ensures final(self).w() == policy_weight, final(self).value == old(self).value, final(self).ao() == old(self).ao(),
             final(self).wo() == old(self).wo(), final(self).ta() == old(self).ta(), final(self).tm() == old(self).tm()
     { unimplemented!() }
+//@@ END
+//@@ SIG file=src/unsync.rs owner=ValueEntry name=replace_deq_nodes_with
     #[verifier::external_body]
     pub fn replace_deq_nodes_with(&mut self, other: Self)
         ensures final(self).ao() == other.ao(), final(self).wo() == other.wo(), final(self).ta() == other.ta(), final(self).tm() == other.tm(),
             final(self).w() == old(self).w(), final(self).value == old(self).value
     { unimplemented!() }
+//@@ END
+//@@ SIG file=src/unsync.rs owner=AccessTime for ValueEntry name=set_last_accessed
     #[verifier::external_body]
     pub fn set_last_accessed(&mut self, timestamp: Instant)
         ensures final(self).ta() == (if old(self).ao().is_some() { Some(timestamp) } else { old(self).ta() }),
             final(self).value == old(self).value, final(self).ao() == old(self).ao(), final(self).wo() == old(self).wo(),
             final(self).w() == old(self).w(), final(self).tm() == old(self).tm()
     { unimplemented!() }
+//@@ END
+//@@ SIG file=src/unsync.rs owner=AccessTime for ValueEntry name=set_last_modified
     #[verifier::external_body]
     pub fn set_last_modified(&mut self, timestamp: Instant)
         ensures final(self).tm() == (if old(self).wo().is_some() { Some(timestamp) } else { old(self).tm() }),
             final(self).value == old(self).value, final(self).ao() == old(self).ao(), final(self).wo() == old(self).wo(),
             final(self).w() == old(self).w(), final(self).ta() == old(self).ta()
     { unimplemented!() }
+//@@ END
 }
 impl<K, V> AccessTime for ValueEntry<K, V> {
     open spec fn sp_last_accessed(&self) -> Option<Instant> { if self.ao().is_some() { self.ta() } else { None } }
@@ -158,6 +170,7 @@ pub open spec fn index_of_id(s: Seq<N>, id: int) -> int { choose|i: int| 0 <= i 
 pub open spec fn moved_to_back(s: Seq<N>, i: int) -> Seq<N> { s.remove(i).push(s[i]) }
 
 impl<K> Deque<KeyHashDate<K>> {
+//@@ SIG file=src/common/deque.rs owner=Deque name=peek_front types=loose
     #[verifier::external_body]
     pub fn peek_front(&self) -> (r: Option<&DeqNode<KeyHashDate<K>>>)
         ensures match r {
@@ -165,13 +178,17 @@ impl<K> Deque<KeyHashDate<K>> {
             None => self@.len() == 0,
         }
     { unimplemented!() }
+//@@ END
+//@@ SIG file=src/common/deque.rs owner=Deque name=pop_front types=loose
     #[verifier::external_body]
     pub fn pop_front(&mut self) -> (r: Option<Box<DeqNode<KeyHashDate<K>>>>)
         ensures old(self)@.len() > 0 ==> final(self)@ == old(self)@.skip(1),
                 old(self)@.len() == 0 ==> final(self)@ == old(self)@ && r.is_none(),
     { unimplemented!() }
+//@@ END
 }
 impl<K> Deque<KeyDate<K>> {
+//@@ SIG file=src/common/deque.rs owner=Deque name=peek_front types=loose
     #[verifier::external_body]
     pub fn peek_front(&self) -> (r: Option<&DeqNode<KeyDate<K>>>)
         ensures match r {
@@ -179,11 +196,14 @@ impl<K> Deque<KeyDate<K>> {
             None => self@.len() == 0,
         }
     { unimplemented!() }
+//@@ END
+//@@ SIG file=src/common/deque.rs owner=Deque name=pop_front types=loose
     #[verifier::external_body]
     pub fn pop_front(&mut self) -> (r: Option<Box<DeqNode<KeyDate<K>>>>)
         ensures old(self)@.len() > 0 ==> final(self)@ == old(self)@.skip(1),
                 old(self)@.len() == 0 ==> final(self)@ == old(self)@ && r.is_none(),
     { unimplemented!() }
+//@@ END
 }
 
 #[derive(Clone, Copy)]
@@ -206,11 +226,14 @@ impl<K> Default for Deques<K> {
 impl<K> Deques<K> {
     pub open spec fn others_same(&self, o: &Self) -> bool { self.window@ == o.window@ && self.protected@ == o.protected@ }
 
+//@@ SIG file=src/unsync/deques.rs owner=Deques name=clear
     #[verifier::external_body]
     pub fn clear(&mut self)
         ensures final(self).window@.len() == 0, final(self).probation@.len() == 0, final(self).protected@.len() == 0, final(self).write_order@.len() == 0
     { unimplemented!() }
+//@@ END
 
+//@@ SIG file=src/unsync/deques.rs owner=Deques name=push_back_ao
     #[verifier::external_body]
     pub fn push_back_ao<V>(&mut self, region: CacheRegion, kh: KeyHashDate<K>, entry: &mut ValueEntry<K, V>)
         requires region is MainProbation, //@ [C08,C11]
@@ -221,7 +244,9 @@ impl<K> Deques<K> {
             final(entry).ta() == kh.timestamp,
             final(entry).value == old(entry).value, final(entry).wo() == old(entry).wo(), final(entry).w() == old(entry).w(), final(entry).tm() == old(entry).tm(),
     { unimplemented!() }
+//@@ END
 
+//@@ SIG file=src/unsync/deques.rs owner=Deques name=push_back_wo
     #[verifier::external_body]
     pub fn push_back_wo<V>(&mut self, kh: KeyDate<K>, entry: &mut ValueEntry<K, V>)
         ensures
@@ -231,8 +256,10 @@ impl<K> Deques<K> {
             final(entry).tm() == kh.timestamp,
             final(entry).value == old(entry).value, final(entry).ao() == old(entry).ao(), final(entry).w() == old(entry).w(), final(entry).ta() == old(entry).ta(),
     { unimplemented!() }
+//@@ END
 
     /// panics (`unreachable!`) unless the entry's node is a member of the probation list
+//@@ SIG file=src/unsync/deques.rs owner=Deques name=move_to_back_ao
     #[verifier::external_body]
     pub fn move_to_back_ao<V>(&mut self, entry: &ValueEntry<K, V>)
         requires entry.ao().is_some() ==> has_id(old(self).probation@, entry.ao().unwrap()), //@ [C08,C11]
@@ -241,8 +268,10 @@ impl<K> Deques<K> {
             entry.ao().is_none() ==> final(self).probation@ == old(self).probation@,
             entry.ao().is_some() ==> final(self).probation@ == moved_to_back(old(self).probation@, index_of_id(old(self).probation@, entry.ao().unwrap())),
     { unimplemented!() }
+//@@ END
 
     /// `entry.write_order_q_node().unwrap()`: panics if the entry has no write-order node
+//@@ SIG file=src/unsync/deques.rs owner=Deques name=move_to_back_wo
     #[verifier::external_body]
     pub fn move_to_back_wo<V>(&mut self, entry: &ValueEntry<K, V>)
         requires entry.wo().is_some(), //@ [C08,C11]
@@ -251,7 +280,9 @@ impl<K> Deques<K> {
             !has_id(old(self).write_order@, entry.wo().unwrap()) ==> final(self).write_order@ == old(self).write_order@,
             has_id(old(self).write_order@, entry.wo().unwrap()) ==> final(self).write_order@ == moved_to_back(old(self).write_order@, index_of_id(old(self).write_order@, entry.wo().unwrap())),
     { unimplemented!() }
+//@@ END
 
+//@@ SIG file=src/unsync/deques.rs owner=Deques name=unlink_ao
     #[verifier::external_body]
     pub fn unlink_ao<V>(&mut self, entry: &mut ValueEntry<K, V>)
         requires old(entry).ao().is_some() ==> has_id(old(self).probation@, old(entry).ao().unwrap()), //@ [C08,C11]
@@ -262,7 +293,9 @@ impl<K> Deques<K> {
             old(entry).ao().is_none() ==> final(self).probation@ == old(self).probation@,
             old(entry).ao().is_some() ==> final(self).probation@ == old(self).probation@.remove(index_of_id(old(self).probation@, old(entry).ao().unwrap())),
     { unimplemented!() }
+//@@ END
 
+//@@ SIG file=src/unsync/deques.rs owner=Deques name=unlink_ao_from_deque
     #[verifier::external_body]
     pub fn unlink_ao_from_deque<V>(deq_name: &str, deq: &mut Deque<KeyHashDate<K>>, entry: &mut ValueEntry<K, V>)
         requires old(entry).ao().is_some() ==> has_id(old(deq)@, old(entry).ao().unwrap()), //@ [C08,C11]
@@ -272,7 +305,9 @@ impl<K> Deques<K> {
             old(entry).ao().is_none() ==> final(deq)@ == old(deq)@,
             old(entry).ao().is_some() ==> final(deq)@ == old(deq)@.remove(index_of_id(old(deq)@, old(entry).ao().unwrap())),
     { unimplemented!() }
+//@@ END
 
+//@@ SIG file=src/unsync/deques.rs owner=Deques name=unlink_wo
     #[verifier::external_body]
     pub fn unlink_wo<V>(deq: &mut Deque<KeyDate<K>>, entry: &mut ValueEntry<K, V>)
         requires old(entry).wo().is_some() ==> has_id(old(deq)@, old(entry).wo().unwrap()), //@ [C08,C11]
@@ -282,6 +317,7 @@ impl<K> Deques<K> {
             old(entry).wo().is_none() ==> final(deq)@ == old(deq)@,
             old(entry).wo().is_some() ==> final(deq)@ == old(deq)@.remove(index_of_id(old(deq)@, old(entry).wo().unwrap())),
     { unimplemented!() }
+//@@ END
 }
 
 
@@ -309,16 +345,20 @@ pub broadcast axiom fn axiom_rc_reads<T>(rc: &Rc<T>, r: &T)
     ensures #[trigger] rc_reads(rc, r) ==> *r == **rc;
 
 impl<T> Deque<T> {
+//@@ SIG file=src/common/deque.rs owner=Deque name=peek_front_ptr
     #[verifier::external_body]
     pub fn peek_front_ptr(&self) -> (r: Option<NonNull<DeqNode<T>>>)
         ensures match r { Some(p) => self@.len() > 0 && nid(p) == self@[0].id, None => self@.len() == 0 }
     { unimplemented!() }
+//@@ END
 }
 impl<T> DeqNode<T> {
+//@@ SIG file=src/common/deque.rs owner=DeqNode name=next_node_ptr
     #[verifier::external_body]
     pub fn next_node_ptr(this: NonNull<Self>) -> (r: Option<NonNull<DeqNode<T>>>)
         ensures match r { Some(p) => heap_next(nid(this)) == Some(nid(p)), None => heap_next(nid(this)).is_none() }
     { unimplemented!() }
+//@@ END
 }
 pub open spec fn frozen<K>(s: Seq<N>) -> bool {
     forall|p: NonNull<DeqNode<KeyHashDate<K>>>, i: int| 0 <= i < s.len() && nid(p) == (#[trigger] s[i]).id ==> {
@@ -423,22 +463,30 @@ impl Policy {
     pub uninterp spec fn sp_ttl(&self) -> Option<Duration>;
     pub uninterp spec fn sp_tti(&self) -> Option<Duration>;
     /// contract proved in the `config` unit on the real text of src/policy.rs
+//@@ SIG file=src/policy.rs owner=Policy name=new types=loose
     #[verifier::external_body]
     pub fn new(max_capacity: Option<u64>, time_to_live: Option<Duration>, time_to_idle: Option<Duration>) -> (r: Policy)
         ensures r.sp_max_capacity() == max_capacity, r.sp_ttl() == time_to_live, r.sp_tti() == time_to_idle
     { unimplemented!() }
+//@@ END
 }
 impl FrequencySketch {
     pub uninterp spec fn freq(&self, hash: u64) -> u8;
     pub uninterp spec fn incremented(&self, hash: u64) -> FrequencySketch;
+//@@ SIG file=src/common/frequency_sketch.rs owner=FrequencySketch name=frequency
     #[verifier::external_body]
     pub fn frequency(&self, hash: u64) -> (r: u8) ensures r == self.freq(hash), r <= 15 { unimplemented!() }
+//@@ END
+//@@ SIG file=src/common/frequency_sketch.rs owner=FrequencySketch name=increment
     #[verifier::external_body]
     pub fn increment(&mut self, hash: u64) ensures *final(self) == old(self).incremented(hash) { unimplemented!() }
+//@@ END
     /// (re)sizing: forgets all counts or does nothing -- never a recording (contract proved in the sketch unit for cap <= 2^27)
     pub uninterp spec fn ensured(&self, cap: u32) -> FrequencySketch;
+//@@ SIG file=src/common/frequency_sketch.rs owner=FrequencySketch name=ensure_capacity
     #[verifier::external_body]
     pub fn ensure_capacity(&mut self, cap: u32) ensures *final(self) == old(self).ensured(cap) { unimplemented!() }
+//@@ END
 }
 /// f64 `*` and `/` never trap in Rust (vstd leaves their preconditions unspecified)
 pub broadcast axiom fn axiom_f64_mul_ok(a: f64, b: f64) ensures #[trigger] a.mul_req(b);
